@@ -39,9 +39,18 @@ type KeySpec struct {
 	// OtherKEM: a key for DHKEM(P-256) - a KEM this library does not implement
 	// (the key list is of the type crypto/tls uses, where such keys are fine).
 	OtherKEM bool `json:"other_kem,omitempty"`
+	// BadConfig: the entry's config does not parse (cut short): the library has
+	// to leave it aside.
+	BadConfig bool `json:"bad_config,omitempty"`
 }
 
 func (k KeySpec) material() (priv, pub, cfg []byte) {
+	if k.BadConfig {
+		g := k
+		g.BadConfig = false
+		priv, pub, cfg = g.material()
+		return priv, pub, cfg[:len(cfg)-3]
+	}
 	h := core.Mix(uint64(k.KeySeed), "echkey")
 	seed := make([]byte, 32)
 	for i := range seed {
